@@ -344,11 +344,21 @@ structure Result where
   perm : Option (List Nat)
   inv : Option (List Nat)
   cs : Nat
+  conn : List Bool                 -- `_mode_type[i] == PHOTONIC` after the add
   heralds : List (Nat × Nat)
   dets : List (Option String)
   inp : List Port
   outp : List Port
   ps : Option PS
+
+/-- `circuit_size` after the add: a bare component adds no mode, a processor appends one mode per herald -/
+def csAfter (l r : Side) : Nat := if r.comp then l.cs else l.cs + r.heralds.length
+
+/-- `_mode_type` after the add (as `== PHOTONIC`): `self._mode_type += [ModeType.HERALD] * n_new_heralds`
+— the modes imported for the heralds of the added processor are reserved, the old ones keep their type
+(`_add_herald` re-types the new modes `HERALD` again, which changes nothing) -/
+def connAfter (l r : Side) : List Bool :=
+  if r.comp then l.conn else l.conn ++ List.replicate r.heralds.length false
 
 /-- post-selection of the added processor in the numbering of the composed processor -/
 def renamePS (fixed : Bool) (inv : Option (List Nat)) (first : Nat) (ps : PS) : PS :=
@@ -380,13 +390,12 @@ def compose (fixName fixPS fixPorts : Bool) (l r : Side) (raw : RawMap) (keepPor
       -- `_add_component`
       let perm ← genPerm mp
       return { map := mp, full := filled mp, first := minN mp.keys, perm := perm, inv := none,
-               cs := l.cs, heralds := heraldsOf outp0, dets := l.dets, inp := l.inp, outp := outp0,
-               ps := l.ps }
+               cs := csAfter l r, conn := connAfter l r, heralds := heraldsOf outp0, dets := l.dets,
+               inp := l.inp, outp := outp0, ps := l.ps }
     else
       -- `_compose_experiment`
       let hpos := r.heralds.map (·.1)
       let mpH := addHeraldedModes l.cs mp hpos
-      let cs := l.cs + hpos.length
       let dets := l.dets ++ hpos.map fun p => r.dets.getD p none
       let perm ← genPerm mpH
       let fl := filled mpH
@@ -402,8 +411,9 @@ def compose (fixName fixPS fixPorts : Bool) (l r : Side) (raw : RawMap) (keepPor
           | none => .ok (some q')
           | some p => if p.independent q' then .ok (some (.and p q')) else .error .runtime
         : Except Err (Option PS))
-      return { map := mp, full := fl, first := first, perm := perm, inv := inv, cs := cs,
-               heralds := heraldsOf outp1, dets := dets, inp := inp2, outp := outp1, ps := ps }
+      return { map := mp, full := fl, first := first, perm := perm, inv := inv, cs := csAfter l r,
+               conn := connAfter l r, heralds := heraldsOf outp1, dets := dets, inp := inp2,
+               outp := outp1, ps := ps }
 
 /-! ## what the appended components are, as a matrix
 
